@@ -84,6 +84,11 @@ func resourceFor(impl string, kind int, null bool, field string, val any) jsonap
 		"v": {Kind: "attr", K: kindName(kind), Null: null}}
 	res := newRes(impl, "ft", fields, kindMap{})
 	res.Set("id", "r1")
+	if b, isBytes := val.([]byte); isBytes && len(b) == 0 && field == "v" {
+		// the empty byte string of a resource is the one it was born with (never written: a nil slice in
+		// a struct, an empty one in a soft resource): it reads as empty either way
+		return res
+	}
 	if val != nil {
 		res.Set(field, val)
 	}
